@@ -6,6 +6,7 @@ from hypothesis import strategies as st
 from vlib import strat as S, oracles as O, groups as GR
 
 ID = "C15"
+SWITCH_OFF = 6        # every 6th case runs with xfab.CHECKS switched off (results must not depend on it)
 RULE = ("one unit per space-group setting (all 237 in every run); per setting Hypothesis draws positions from the rational "
         "grid {0,1/8,1/6,1/4,1/3,3/8,1/2,5/8,2/3,3/4,5/6,7/8}^3 and from the families (x,x,z) (x,2x,z) (x,-x,z) (x,0,z) (x,x,x) "
         "(x,y,z) with generic x,y,z = k/9973, shifted by integer lattice vectors in [-3,3], given as floats, called by name "
@@ -70,7 +71,7 @@ def run_one(ctx, g, pos, shift, byname, variant_name=None, pos_as="list"):
         fpos = [int(x) for x in fpos]
         ctx.event("integer-typed-position")
     if byname:
-        if g.choice == "rhombohedral" and len(fpos) and int(abs(float(fpos[0])) * 1000) % 2:
+        if g.choice == "rhombohedral" and variant_name.replace(" ", "").lower().endswith("r") and len(fpos) and int(abs(float(fpos[0])) * 1000) % 2:
             m = structure.multiplicity(fpos, sgname=variant_name)          # the trailing r of the name selects the setting
         else:
             m = structure.multiplicity(fpos, sgname=variant_name, cell_choice=g.choice)
